@@ -109,4 +109,7 @@ def run(ctx):
         rep.check(nh is not None and 255 * nh <= 65535, 'R11.4', im['self_ty'], 'limit-is-hkdfs', '255*Nh = %s' % (255 * nh if nh else None),
                   'the binding limit is HKDF\'s 255*Nh (<= 65535), the u16 prefix can only agree with it', None)
     check_export_only(rep, facts)
+    from .common import check_suite_parametric
+    check_suite_parametric(rep, facts, 'R11.6', scope=lambda b: 'export' in b.key or b.key.startswith(('setup::', 'kdf::')),
+                           floor=4, what='export / key-schedule / KDF bodies generic over the suite')
     rep.bodies_analysed = len(facts.body_list)
